@@ -168,6 +168,7 @@ func (nc *nodeCase) defBlock(parent string, slotSkip uint64, arb byte, txInfos [
 		return ""
 	}
 	r := nc.ref.processBlock(b)
+	nc.ref.quiesce()
 	nc.env.useLocalKey()
 	if r.String() != "ok" {
 		nc.c.Count("ref-rejected-generated-block")
@@ -705,6 +706,20 @@ func (nc *nodeCase) oracleAfterEvent(op string, r procResult) {
 		}
 		vs = append(vs, vt{v, f[1], f[2], sb.Height, tb.Height})
 	}
+	// nc.admitted is a map: order the votes, so that a pair is always reported in one
+	// orientation (and once)
+	sort.Slice(vs, func(i, j int) bool {
+		if vs[i].v != vs[j].v {
+			return vs[i].v < vs[j].v
+		}
+		if vs[i].tgtH != vs[j].tgtH {
+			return vs[i].tgtH < vs[j].tgtH
+		}
+		if vs[i].tgt != vs[j].tgt {
+			return nameLess(vs[i].tgt, vs[j].tgt)
+		}
+		return nameLess(vs[i].src, vs[j].src)
+	})
 	for i := range vs {
 		for j := range vs {
 			a, b := vs[i], vs[j]
